@@ -144,7 +144,11 @@ func (bc *Blockchain) packetStats(pack p2p.Packet) {
 
 	Log.Dev("peer has stats", st)
 	pack.Conn.PeerData(func(d *p2p.PeerData) {
-		d.Stats = st
+		// STATS packets can overtake each other (every broadcast runs in its own goroutine), and the cumulative
+		// difficulty of a peer's chain never decreases: an announcement lighter than the one we hold is stale
+		if st.CumulativeDiff.Cmp(d.Stats.CumulativeDiff) >= 0 {
+			d.Stats = st
+		}
 	})
 
 	bc.SyncMut.Lock()
